@@ -48,16 +48,14 @@ Definition forced_ok (t0 : value -> option Z) (l : list sop) : Prop :=
   /\ (forall p o s, l = p ++ o :: s -> forall d v r, In d (defs o) -> live s v -> d <> v ->
      forced t0 l d r -> forced t0 l v r -> False).
 
-(* what allocate_func needs from the input (each clause fails on a recorded finding):
-   - no value is pre-assigned an "infinite" (negative) register                       [C19-kf-1]
-   - every pre-assigned register that is in the pool is mentioned by an operation with the
-     RegisterAllocatedMemoryEffect trait, so that allocate_func removes it from the pool [C19-kf-2]
+(* what allocate_func needs from the input:
    - with the RISC-V zero rule, `zero` is not allocatable and not pre-assigned
-   - the pool handed to RegisterStack.get contains no infinite registers *)
+   - the pool handed to RegisterStack.get contains no infinite registers
+   (before the repairs d11e3b9 / 26a8b63 two more clauses were necessary -- no pre-assigned infinite
+   register, every pre-assigned pool register visible to the effect-based exclusion -- see the
+   `_old` refutations) *)
 Definition input_ok (zr : bool) (pool : list Z) (fn : func) : Prop :=
-  (forall v r, ty0 fn v = Some r -> 0 <= r)
-  /\ (forall v r, ty0 fn v = Some r -> In r pool -> In r (used_registers fn))
-  /\ (zr = true -> ~ In 0 pool /\ forall v, ty0 fn v <> Some 0)
+  (zr = true -> ~ In 0 pool /\ forall v, ty0 fn v <> Some 0)
   /\ (forall r, In r pool -> 0 <= r).                 (* the pool holds real registers *)
 
 (* ---------------------------------------------------------------------------------------------- *)
